@@ -498,9 +498,17 @@ func runC20(t *rapid.T, w *rep.Worker, tt *testing.T) {
 	if r.ZeroReads {
 		w.Fault("zero_length_reads")
 	}
+	opDump := "dumpProtoFile(reader seam)"
+	w.WatchBegin(&opDump)
 	out, err := srv.do(r)
+	w.WatchEnd()
 	if err != nil {
-		tt.Fatalf("HARNESS: %v", err)
+		// the helper process is gone: the code under test ended it (os.Exit, log.Fatal) or the Go runtime did
+		// (stack exhaustion, a fatal error) - neither is "an error, never a crash"
+		w.Violate("protodump-ended-the-process|reader-seam", fmt.Sprintf("%v while dumping %x", err, clipB(data)))
+		_ = srv.cmd.Wait()
+		srv = startServer(tt)
+		return
 	}
 	judge(w, "reader-seam", r.ErrAfter >= 0, out.Panic, out.Err != "", out.IsRead, string(out.Stdout), verdict, want, tt)
 
@@ -567,6 +575,13 @@ func judge(w *rep.Worker, via string, readFault bool, panicText string, failed, 
 			w.Violate("dump-differs-from-reference|"+via, d+fmt.Sprintf("; stdout %q", clip(stdout)))
 		}
 	}
+}
+
+func clipB(b []byte) []byte {
+	if len(b) > 200 {
+		return b[:200]
+	}
+	return b
 }
 
 func clip(s string) string {
